@@ -19,6 +19,9 @@ PROPS = {
  "C19": dict(level="exploration", quick=600, thorough=30000,
    rule="one evaluation = one simulated run; every block's extension carries the chain root computed by a from-scratch MMR (own merge rule per RFC 0044) over its ancestors, so acceptance by the node's BlockExtensionVerifier is an equality check on every fork; after every reorganisation and restart the node's Snapshot::chain_root_mmr(tip-1/tip).get_root() must equal the naive root; wrong/short/missing root mutants must be rejected. non-trivial as C01",
    assumptions=["membership proofs served through the light-client protocol and block filters are not covered by this check yet (chain-root half of C19 only)"]),
+ "C07": dict(level="exploration", quick=80, thorough=8000,
+   rule="one evaluation = one simulated chain of 340-4300 blocks over 2-4 epochs of 300-1800 blocks with the REAL difficulty adjustment; the miners' clock runs in per-epoch regimes (30%-250% of the ideal pace, stalls of 1 ms per block, bursts, rare jumps of an hour or a day), uncle rates from 0 to 20%, primary-reward halving every 1-3 epochs; every epoch transition computed by the node must equal the model's exact big-rational evaluation of RFC 0020 (EpochExt compared field by field, header epoch/target enforced by the node's own verifier on model-built blocks), and the node's recorded epochs must satisfy: length within [300,1800] and within x2 of the previous, non-zero difficulty, hash-rate estimate within x2 of the previous, gap-free epoch fields, per-epoch sums of block rewards equal to the scheduled primary (with halvings) and secondary issuance, compact<->target<->difficulty conversions equal to an independent implementation and monotone on every target met. non-trivial = at least one epoch transition was reached",
+   assumptions=["PARTIAL CLAIM: decided only for the epoch statistics reached by simulated histories (clock-driven durations, uncle rates, clamp boundaries); the same statements over the whole u64/U256 input space and all compact encodings are pure functions of their arguments and are not sampled here", "proof-of-work acceptance is not covered (Pow::Dummy in simulation)"]),
  "C20": dict(level="exploration", quick=700, thorough=40000,
    rule="one evaluation = one simulated run with random proposal sets in blocks and uncles, reorganisations of any depth relative to the window (w_close 1..3, w_far up to 11), chains shorter than the window, and 1-3 clean restarts at arbitrary operation indexes (new OS process on the same database: init_proposal_table path); after every tip change and after every restart Snapshot::proposals().{set,gap} must equal the union over the model's window. non-trivial as C01",
    assumptions=["detached_proposal_id delivered to the pool is covered by C12's engine, not here", "commit acceptance at the window edges is covered by the model-built commits (they commit at every legal offset)"]),
